@@ -144,7 +144,7 @@ def run(ctx):
         try:
             sc = os.path.join(ctx.scratch, "mc")
             os.makedirs(sc, exist_ok=True)
-            mc["r"] = vlib.tlc("OsmApi", mc_cfg, sc, workers=(6 if quick else 8), timeout=1500)
+            mc["r"] = vlib.tlc("OsmApi", mc_cfg, sc, workers=(4 if quick else 8), timeout=1500)
         except Exception as e:  # noqa
             mc["err"] = e
 
